@@ -1653,6 +1653,10 @@ sc_io_open (sc_MPI_Comm mpicomm, const char *filename,
     mpiret = MPI_File_set_size (*mpifile, 0);
     retval = sc_io_error_class (mpiret, &errcode);
     SC_CHECK_MPI (retval);
+    if (errcode != sc_MPI_SUCCESS) {
+      /* the file is reported as not opened: do not leave the handle behind */
+      (void) MPI_File_close (mpifile);
+    }
   }
 
   return errcode;
